@@ -90,6 +90,16 @@ def make(seed, calm=False, allow_size=False, length=None):
     n = length or rng.choice([6, 10, 16, 24, 40])
     cmds = []
     counter = iter(range(10 ** 6))
+    closing = False
+    def ok(op):
+        nonlocal closing
+        if op["o"] == "hstart" and op["kind"] == "gac":
+            if closing:
+                return False        # overlapping gather_and_close calls: outside C08
+            closing = True
+        if op["o"] == "unlock" and closing:
+            return False            # unlock while closing: misuse, outside every property
+        return True
     for _ in range(n):
         y = rng.random()
         if y < 0.40:
@@ -101,9 +111,12 @@ def make(seed, calm=False, allow_size=False, length=None):
             op = rand_op(rng, cfg, nreq, counter, simple, allow_size)
             if op["o"] in ("cancel_group", "cancel_all") and pt in ("call", "pull"):
                 continue        # outside C07's quantifier: re-entrant cancellation from the spawner's own stack
-            cmds.append({"c": "arm", "pt": pt + ":*", "op": op})
+            if ok(op):
+                cmds.append({"c": "arm", "pt": pt + ":*", "op": op})
         else:
-            cmds.append({"c": "op", "op": rand_op(rng, cfg, nreq, counter, simple, allow_size)})
+            op = rand_op(rng, cfg, nreq, counter, simple, allow_size)
+            if ok(op):
+                cmds.append({"c": "op", "op": op})
     cmds.append({"c": "drain"})
     if rng.random() < 0.7:
         cmds.append({"c": "probe", "k": rng.choice([1, 2, 3, 4])})
